@@ -84,19 +84,19 @@ func (c *Call) Applied() bool { return c.Outcome == OutOK || c.Outcome == OutLos
 
 // Invocation is the record of one Reconcile call (or one command body).
 type Invocation struct {
-	ID         int
-	Controller string
-	NS, Name   string
-	VTimeUnix  int64
-	VTimeNanos int64
+	ID            int
+	Controller    string
+	NS, Name      string
+	VTimeUnix     int64
+	VTimeNanos    int64
 	EndVTimeNanos int64 // virtual time when the invocation returned (differs from VTimeNanos only in N mode)
-	Mode       string
-	Calls      []*Call
-	Dead       bool // process stopped by an injected fault
-	Nested     bool // another actor acted between two calls of this invocation (N mode)
-	ResultStr  string
-	Err        error
-	Panic      string
+	Mode          string
+	Calls         []*Call
+	Dead          bool // process stopped by an injected fault
+	Nested        bool // another actor acted between two calls of this invocation (N mode)
+	ResultStr     string
+	Err           error
+	Panic         string
 }
 
 // Reads returns the read calls.
